@@ -111,6 +111,9 @@ def gen_signal(rng, fs, f_lo, f_hi, n_sec, kind=None):
                  else 10.0 ** float(rng.integers(-3, 4)))
     elif r < 0.46:
         x = x * 2.0 ** float(rng.choice([-1, 1]) * rng.integers(28, 50))      # very small / large units (e.g. tesla)
+    if kind == 'plateau' and r >= 0.46 and rng.random() < 0.5:
+        # integer-typed samples (raw A/D counts): same values, dtype int64
+        return np.ascontiguousarray(np.round(x).astype(np.int64)), kind + '+int'
     return np.ascontiguousarray(x, dtype=float), kind
 
 
